@@ -70,6 +70,7 @@ type Frame struct {
 	trackAlloc bool
 	boxes     map[string]Val
 	recvRef   string
+	reachCond string
 }
 
 func (fr *Frame) top() *Frame {
@@ -279,7 +280,7 @@ func (fr *Frame) loadedFacts(st *State, v Val) {
 func (fr *Frame) sliceWF(v Val) string {
 	vc := fr.vc
 	z := vc.idx(0)
-	big := vc.intLit(pow2(62), 64)
+	big := vc.intLit(pow2(61), 64)
 	return andAll(vc.ile(z, v.C[1]), vc.ile(z, v.C[2]), vc.ile(v.C[2], v.C[3]), vc.ile(v.C[3], big), vc.ile(v.C[1], big),
 		"(=> (= "+v.C[0]+" 0) (and (= "+v.C[2]+" "+z+") (= "+v.C[3]+" "+z+") (= "+v.C[1]+" "+z+")))")
 }
@@ -1211,7 +1212,7 @@ func (fr *Frame) typeAssert(st *State, x *ssa.TypeAssert) {
 					vc.fact(ok, rf)
 				}
 			} else {
-				if bv, found := fr.top().boxes[v.C[1]]; found && types.Identical(bv.T, at) {
+				if bv, found := fr.top().boxes[v.C[1]]; found && identicalT(bv.T, at) {
 					res = bv
 				} else {
 					res = vc.freshVal(x.Name(), at)
